@@ -7,6 +7,7 @@ Accepted notations (Michelson reference, "Full grammar" and the unparsing modes)
   * timestamp: an integer or an RFC3339 string;  bls12_381_fr: integer or 32 LE bytes
   * address / key / key_hash / signature / chain_id / contract: base58 string or optimized bytes
   * big_map: an integer id or a map literal;  lambda: an instruction sequence
+  * set elements / map keys in strictly increasing Michelson order
 `mode` adds the leaf forms that define an unparsing mode: in `optimized` and `legacy_optimized`
 base58 types are bytes and timestamps integers; in `readable` base58 types are strings and a
 timestamp is a 4-digit-year RFC3339 string or — where no such string exists — an integer (integers are
@@ -15,7 +16,7 @@ The comb layout per mode is *not* enforced here (that is PACK's business, C04).
 """
 from __future__ import annotations
 import json
-from bounded.typegen import (Ty, INT_LIKE, BYTES_LIKE, B58_LIKE, b58, b58_split, parse_rfc3339_utc)
+from bounded.typegen import (Ty, INT_LIKE, BYTES_LIKE, B58_LIKE, b58, b58_split, parse_rfc3339_utc, cmp_values)
 
 
 class SpecReject(Exception):
@@ -202,7 +203,10 @@ def read_value(ty: Ty, m, mode=None):
     if p in ('list', 'set'):
         if not isinstance(m, list):
             _rej('sequence expected')
-        return ('List' if p == 'list' else 'Set', tuple(read_value(ty.args[0], x, mode) for x in m))
+        xs = tuple(read_value(ty.args[0], x, mode) for x in m)
+        if p == 'set' and any(cmp_values(ty.args[0], a, b) >= 0 for a, b in zip(xs, xs[1:])):
+            _rej('set elements are not in strictly increasing Michelson order')
+        return ('List' if p == 'list' else 'Set', xs)
     if p in ('map', 'big_map'):
         if p == 'big_map' and isinstance(m, dict):
             return ('BigMapId', _int(m))
@@ -214,6 +218,8 @@ def read_value(ty: Ty, m, mode=None):
             if a is None:
                 _rej('Elt expected')
             items.append((read_value(ty.args[0], a[0], mode), read_value(ty.args[1], a[1], mode)))
+        if any(cmp_values(ty.args[0], a[0], b[0]) >= 0 for a, b in zip(items, items[1:])):
+            _rej('map keys are not in strictly increasing Michelson order')
         return ('Map' if p == 'map' else 'BigMap', tuple(items))
     if p == 'lambda':
         if not isinstance(m, list):
